@@ -61,6 +61,7 @@ FIELD_OPS = [
     "dangling_input", "dup_output", "empty_name", "drop_type", "shuffle_nodes", "self_cycle", "bad_dtype", "bad_attr_type", "bad_dims", "ext_location",
     "ext_numbers", "dup_initializer", "dup_function", "dangling_output", "dup_graph_input", "dangling_device", "deep_nesting", "dup_value_info",
     "tensor_metadata", "missing_opset", "ref_attr", "sparse", "quant", "negative_dims", "string_tensor", "input_is_output", "sub_output_outer", "sub_output_outer", "sub_input_outer", "sub_init_outer", "output_is_initializer", "output_is_initializer",
+    "function_identity", "function_identity",
 ]  # fmt: skip
 _IGNORED_PREFIXES = tuple(p for p in {sys.prefix, sys.base_prefix, "/repo", "/verif", "/venv", "/root/.pyenv", "/usr/lib/python3", "/usr/lib/python3.12", "/proc/self"} if p)
 
@@ -313,6 +314,32 @@ def damage_fields(p: onnx.ModelProto, opsl: list) -> None:
                 cur = at.g.node.add()
                 cur.op_type = "If"
                 cur.output.append("deep_out")
+        elif kind == "function_identity" and p.functions:
+            # odd but storable function identities: an overload (also below IR version 10), '/' in the name, '::' in
+            # the domain - together with value_info on the function's values and an old IR version
+            f = p.functions[c % len(p.functions)]
+            old_id = (f.domain, f.name, f.overload)
+            which = (c >> 3) % 4
+            if which == 0:
+                f.overload = "ov1"
+            elif which == 1:
+                f.name = "my/" + f.name
+            elif which == 2:
+                f.domain = "a::b"
+                oi = p.opset_import.add()
+                oi.domain, oi.version = "a::b", 1
+            else:
+                f.overload, f.name = "ov2", f.name + "/x"
+            for g2 in _all_graphs(p):
+                for n2 in (g2.node if hasattr(g2, "node") else []):
+                    if (n2.domain, n2.op_type, n2.overload) == old_id:
+                        n2.domain, n2.op_type, n2.overload = f.domain, f.name, f.overload
+            if not f.value_info and f.output:
+                vi = f.value_info.add()
+                vi.name = f.output[0]
+                vi.type.tensor_type.elem_type = 1
+            if (c >> 5) % 2:
+                p.ir_version = [7, 8, 9][(c >> 6) % 3]
         elif kind == "dup_value_info" and g.value_info:
             vi = g.value_info.add()
             vi.CopyFrom(g.value_info[0])
